@@ -49,7 +49,7 @@ def cases(tier, seed):
     # Tile object: its pixel grid is only observable through sampling)
     for cs in ("astronomical", "planetary"):
         for entry in ("sample_layer", "sample_layer_filtered", "toast_base"):
-            for depth in (0, 1) if tier == "quick" else (0, 1, 2):
+            for depth in (0, 1, 2) if tier == "quick" else (0, 1, 2, 2, 3):
                 out.append(dict(t="sampler_grid", cs=cs, entry=entry, depth=depth, seed=R.randrange(1 << 30)))
     if tier == "thorough":
         out.append(dict(t="sanitizer", _timeout=900))
@@ -119,12 +119,19 @@ def case_sampler_grid(spec, workdir):
         return np.zeros(lon.shape, np.float32)
 
     pio = PyramidIO(os.path.join(workdir, "p"), default_format="npy")
+    # the tile filter: a Python function, or the LIBRARY's own lat/lon box filter with a box that covers the whole sky
+    # (what WcsSampler.filter() and ChunkedPlateCarreeSampler.filter() hand out)
+    accept_all = lambda t: True
+    if spec["seed"] % 2 and depth >= 1:
+        from toasty.samplers import _latlon_tile_filter
+
+        accept_all = _latlon_tile_filter(-0.2, 6.5, -1.5707963267948966, 1.5707963267948966)
     if spec["entry"] == "sample_layer":
         toast.sample_layer(pio, recorder, depth, coordsys=cs, parallel=1)
     elif spec["entry"] == "sample_layer_filtered":
-        toast.sample_layer_filtered(pio, lambda t: True, recorder, depth, coordsys=cs, parallel=1)
+        toast.sample_layer_filtered(pio, accept_all, recorder, depth, coordsys=cs, parallel=1)
     else:
-        Builder(pio).toast_base(recorder, depth, is_planet=pl, parallel=1, tile_filter=(lambda t: True))
+        Builder(pio).toast_base(recorder, depth, is_planet=pl, parallel=1, tile_filter=accept_all)
     probs = []
     if len(grids) != 4 ** depth:
         probs.append("%s depth %d: sampler called %d times, expected %d" % (spec["entry"], depth, len(grids), 4 ** depth))
